@@ -92,3 +92,32 @@ def outcome_key(o):
     if o.status == "crash":
         return "crash:" + type(o.exc).__name__
     return "%s:%d" % (o.status, len(o.errors))
+
+
+def run_repo_tests_under_monitors(M, deciding):
+    """W0: the repository's own 30 tests with the probes installed and the monitors evaluated
+    after every test.  A monitor firing there is either too strict or a defect the tests do not assert."""
+    import json
+    import os
+    import subprocess
+    import sys
+    import tempfile
+    from ..common import REPO, VERIF_DIR
+    out = tempfile.mktemp(prefix="vf-w0-", suffix=".json")
+    env = dict(os.environ, PYTHONPATH=VERIF_DIR, VF_W0_OUT=out, PYTHONDONTWRITEBYTECODE="1")
+    p = subprocess.run([sys.executable, "-B", "-m", "pytest", "-q", "-p", "no:cacheprovider", "-p", "vf.pytest_plugin", "python/test"],
+                       cwd=REPO, env=env, capture_output=True, text=True, timeout=900)
+    try:
+        res = json.load(open(out))
+        os.remove(out)
+    except Exception:
+        M.inconc("W0: the repository's tests could not be run under the monitors: %s" % (p.stdout + p.stderr)[-300:])
+        return
+    M.count("W0.tests_run", res["counts"]["tests"])
+    M.count("W0.parses_observed", res["counts"]["parses"])
+    for f in res["fired"]:
+        if f["monitor"] in deciding:
+            M.violation(f["monitor"], dict(f["detail"] if isinstance(f["detail"], dict) else {"detail": f["detail"]}, test=f["test"], workload="W0 repository tests"),
+                        {"kind": "w0", "test": f["test"]})
+        else:
+            M.count("advisory.W0." + f["monitor"])
